@@ -129,7 +129,8 @@ macro_rules! impl_numeric_cast {
 
         // cast for string type
         impl Cast<String> for $T {
-            #[inline] fn cast(self) -> String { self.to_string() }
+            // a null (NaN) is the null string, as for `Option<$T>`
+            #[inline] fn cast(self) -> String { if self.is_none() { String::none() } else { self.to_string() } }
         }
 
         impl Cast<String> for Option<$T> {
@@ -441,6 +442,21 @@ impl_numeric_cast!(isize => { u8, f32, f64, i32, i64, u64, usize });
 impl_time_cast!(u8, u64, f32, f64, i32, usize, isize, bool);
 
 macro_rules! impl_cast_from_string {
+    // targets that can represent a null: the null string "None" is the null of the target
+    (nullable $($T: ty),*) => {
+        $(
+            impl Cast<$T> for String {
+                #[inline] fn cast(self) -> $T { self.as_str().cast() }
+            }
+
+            impl Cast<$T> for &str {
+                #[inline] fn cast(self) -> $T {
+                    if self == "None" { <$T as IsNone>::none() } else { self.parse().expect("Parse string error") }
+                }
+            }
+        )*
+        impl_cast_from_string!(@option $($T),*);
+    };
     ($($T: ty),*) => {
         $(
             impl Cast<$T> for String {
@@ -450,6 +466,11 @@ macro_rules! impl_cast_from_string {
             impl Cast<$T> for &str {
                 #[inline] fn cast(self) -> $T { self.parse().expect("Parse string error") }
             }
+        )*
+        impl_cast_from_string!(@option $($T),*);
+    };
+    (@option $($T: ty),*) => {
+        $(
 
             impl Cast<Option<$T>> for String {
                 #[inline]
@@ -476,9 +497,8 @@ macro_rules! impl_cast_from_string {
     };
 }
 
-impl_cast_from_string!(
-    u8, u16, u32, u64, usize, i8, i16, i32, i64, isize, f32, f64, char, bool
-);
+impl_cast_from_string!(u8, u16, u32, u64, usize, i8, i16, i32, i64, isize, char, bool);
+impl_cast_from_string!(nullable f32, f64);
 
 impl Cast<String> for &str {
     #[inline]
@@ -504,7 +524,7 @@ where
 {
     #[inline]
     fn cast(self) -> DateTime<U> {
-        self.parse().expect("Parse string to datetime error")
+        if self == "None" { DateTime::nat() } else { self.parse().expect("Parse string to datetime error") }
     }
 }
 
@@ -515,7 +535,7 @@ where
 {
     #[inline]
     fn cast(self) -> DateTime<U> {
-        self.parse().expect("Parse str to datetime error")
+        if self == "None" { DateTime::nat() } else { self.parse().expect("Parse str to datetime error") }
     }
 }
 
@@ -523,7 +543,7 @@ where
 impl Cast<String> for TimeDelta {
     #[inline]
     fn cast(self) -> String {
-        format!("{:?}", self)
+        if self.is_nat() { String::none() } else { format!("{:?}", self) }
     }
 }
 
@@ -547,7 +567,7 @@ impl<U: TimeUnitTrait> Cast<DateTime<U>> for TimeDelta {
 impl Cast<TimeDelta> for &str {
     #[inline(always)]
     fn cast(self) -> TimeDelta {
-        TimeDelta::parse(self).expect("Parse str to timedelta error")
+        if self == "None" { TimeDelta::nat() } else { TimeDelta::parse(self).expect("Parse str to timedelta error") }
     }
 }
 
@@ -555,7 +575,7 @@ impl Cast<TimeDelta> for &str {
 impl Cast<TimeDelta> for String {
     #[inline(always)]
     fn cast(self) -> TimeDelta {
-        TimeDelta::parse(&self).expect("Parse string to timedelta error")
+        self.as_str().cast()
     }
 }
 
